@@ -16,10 +16,15 @@ if [ "$SUITE" = "--suite" ]; then
   (cd "$WT" && PYTHONPATH="$WT/src" /venv/bin/python -m pytest -q -p no:cacheprovider --timeout=900 2>&1 | tail -1) > /tmp/seed-suite-$$ 2>&1
   S="$(cat /tmp/seed-suite-$$)"
 fi
+export VERIF_WORK="/var/tmp/verif-work/seed-$PID-$$"
+mkdir -p "$VERIF_WORK/evidence" "$VERIF_WORK/replays"
+( flock 7; rsync -a --exclude .lock /verif/coq /verif/ocaml "$VERIF_WORK/" ) 7>/verif/coq/.lock
+trap 'git -C /repo worktree remove --force "$WT" >/dev/null 2>&1; rm -rf "$VERIF_WORK"' EXIT
 cd /verif && VERIF_REPO="$WT" ./check "$PID" > /tmp/seed-check-$$ 2>&1; C=$?
 V="$(grep -c '^VIOLATION' /tmp/seed-check-$$)"
 echo "RESULT $PID $SD demo_unmodified=$D0 demo_modified=$D1 suite=[$S] check_exit=$C violations=$V"
 grep '^VIOLATION\|BROKEN\|^\['"$PID"'\]' /tmp/seed-check-$$ | cut -c1-260 | head -8
-for f in /verif/replays/$PID-*.json; do [ -f "$f" ] && python3 -c "
+mkdir -p /var/tmp/logs/seed/replays; cp "$VERIF_WORK"/replays/$PID-*.json /var/tmp/logs/seed/replays/ 2>/dev/null
+for f in "$VERIF_WORK"/replays/$PID-*.json; do [ -f "$f" ] && python3 -c "
 import json,sys; d=json.load(open('$f')); print('  replay', '$f'.split('/')[-1], '|', d.get('class'), '|', json.dumps(d.get('case'))[:220])"; done
 rm -f /tmp/seed-demo-$$.* /tmp/seed-suite-$$ /tmp/seed-check-$$
